@@ -245,6 +245,27 @@ def clause_ascii_compatible_ctor(r, mir):
                     r.inst(key)
                     r.violate(key, f"{f.key} uses the tuple constructor of AsciiCompatibleEncoding as a function (e.g. `.map(Self)`): the encoding it wraps is not checked with is_ascii_compatible(), so a label such as utf-16 or iso-2022-jp (from <meta http-equiv content=...; charset=...>) switches the rewriter to an encoding in which markup bytes are not ASCII", f.loc())
 
+    # the encoding that is checked is the encoding that is used: no detour through Encoding::output_encoding()
+    # (it maps UTF-16LE/BE and `replacement` to UTF-8, so a non-ASCII-compatible encoding would pass the check)
+    oe = []
+    chk = 0
+    for f in mir.fns:
+        if mir.is_test_fn(f):
+            continue
+        oe += [(f.key, f.loc()) for bi, t in f.calls(r"Encoding::output_encoding$")]
+        chk += len(list(f.calls(r"Encoding::is_ascii_compatible$")))
+        for bi, t in f.calls(r"AsciiCompatibleEncoding::new$"):
+            a = f.deep(t["args"][0])
+            key = f"{f.key}|new-argument"
+            r.inst(key, sample={"argument": a[:80]})
+            if re.search(r"output_encoding\(|new_encoder|new_decoder", a):
+                r.violate(key, f"{f.key} checks `{a[:100]}` instead of the encoding it was given: UTF-16 / replacement are accepted and then treated as UTF-8", f.loc())
+    r.inst("no-output_encoding", sample={"calls": oe, "is_ascii_compatible_calls": chk})
+    if chk < 1:
+        raise EngineError(r.rid + ": no Encoding::is_ascii_compatible call resolved (positive control of the who-may-call clause)")
+    for k_, loc_ in oe:
+        r.violate(k_ + "|output_encoding", f"{k_} calls Encoding::output_encoding(): the rewriter must read and write one and the same encoding", loc_)
+
 
 def rule_meta_charset(ctx, mir, rid="R13.7"):
     # ------------------------------------------------------------------ R13.7
